@@ -61,6 +61,40 @@ let handlers : (string * (string list -> string -> verdict)) list = [
          its effective members, and a reference's rid is the last string given for rid *)
       { model = m; spec_ok = None; nontrivial = L.length pm > 1 }
     | _ -> failwith "args");
+  "get_dec", (fun args impl -> match args with
+    | [syn; err; res; _payload] ->
+      let vals (t : string) : ValueDec.outcome list =
+        L.init (S.length t - 1) (fun i -> match S.get t (i + 1) with
+          | 'p' -> ValueDec.OPrimTop | 'r' -> ValueDec.ORef ['a'] | 's' -> ValueDec.OSoft ['a']
+          | 'd' -> ValueDec.OData Datatypes.O | 'D' -> ValueDec.ODelete | _ -> ValueDec.OErr ValueDec.EAmbiguous) in
+      let part t = if t = "-" then None else Some (vals t) in
+      let result = if res = "-" then None else (match S.split_on_char ';' res with
+        | [m; c] -> Some { RespDec.g_model = part m; RespDec.g_coll = part c }
+        | _ -> failwith "res") in
+      let p = { RespDec.gp_syntax_ok = (syn = "1");
+                RespDec.gp_error = (if err = "-" then None else Some (nat_of_int (int_of_string err)));
+                RespDec.gp_result = result } in
+      let m = (match RespDec.decode_get p with
+        | RespDec.GModel n -> "model:" ^ string_of_int (int_of_nat n)
+        | RespDec.GColl n -> "coll:" ^ string_of_int (int_of_nat n)
+        | RespDec.GService e -> "svc:" ^ string_of_int (int_of_nat e)
+        | RespDec.GJson -> "json" | RespDec.GMissingResult -> "missing" | RespDec.GInvalid -> "invalid") in
+      { model = m; spec_ok = None; nontrivial = res <> "-" }
+    | _ -> failwith "args");
+  "call_dec", (fun args impl -> match args with
+    | [syn; err; rid; raw; _payload] ->
+      let tail s = S.sub s 1 (S.length s - 1) in
+      let p = { RespDec.cp_syntax_ok = (syn = "1");
+                RespDec.cp_error = (if err = "-" then None else Some (nat_of_int (int_of_string err)));
+                RespDec.cp_resource = (if rid = "-" then None else Some (chars_of_string (unhex (tail rid))));
+                RespDec.cp_result = (if raw = "-" then None else Some Datatypes.O) } in
+      let m = (match RespDec.decode_call p with
+        | RespDec.CResult _ -> "res:" ^ tail raw
+        | RespDec.CResource r -> "rid:" ^ hex (string_of_chars r)
+        | RespDec.CService e -> "svc:" ^ string_of_int (int_of_nat e)
+        | RespDec.CJson -> "json" | RespDec.CMissingResult -> "missing" | RespDec.CInvalid -> "invalid") in
+      { model = m; spec_ok = None; nontrivial = rid <> "-" || raw <> "-" }
+    | _ -> failwith "args");
   "valid_rid", (fun args impl -> match args with
     | [rid; aq] ->
       let m = Rid.is_valid_rid (chars_of_string (unhex rid)) (aq = "1") in
